@@ -465,6 +465,8 @@ fn reference_relations(d: &Doc, r: &mut Rules, id_count: &HashMap<&str, usize>, 
                     let count = |id: &str| rel.jobs.iter().filter(|x| *x == id).count();
                     if (s.breaks.is_some() && count("break") > optional) || s.reloads.as_ref().is_some_and(|x| count("reload") > x.len()) {
                         r.derived.push("relation.special-id-dangling".to_string());
+                        // the docs do not say whether "more reserved ids than definitions" is E1206: either answer is accepted
+                        r.u("E1206");
                     }
                     for id in rel.jobs.iter() {
                         let (missing, empty) = match id.as_str() {
